@@ -22,8 +22,9 @@ class Deadlock(Exception):
 
 
 class _CapturedServer:
-    def __init__(self, factory, host, port, ssl):
+    def __init__(self, factory, host, port, ssl, kw=None):
         self.factory, self.host, self.port, self.ssl = factory, host, port, ssl
+        self.kw = dict(kw or {})  # e.g. ssl_handshake_timeout / ssl_shutdown_timeout given to create_server
         self._closed = False
         self._waiter = None
 
@@ -83,7 +84,7 @@ class VLoop(asyncio.SelectorEventLoop):
 
     # ---- network entry points -------------------------------------------
     async def create_server(self, protocol_factory, host=None, port=None, *, ssl=None, **kw):
-        srv = _CapturedServer(protocol_factory, host, port, ssl)
+        srv = _CapturedServer(protocol_factory, host, port, ssl, kw)
         self.captured_servers.append(srv)
         return srv
 
